@@ -133,13 +133,32 @@ def key_hash(k, fam='string'):
 # model value 1 is the empty string (a falsy Python value that is nevertheless a binding), 2 is "w"
 VAL = {1: '', 2: 'w'}
 UNVAL = {'': 1, 'w': 2}
+VALTYPE = ['string']      # value type of the big_map under test: string ("" and "w") or list nat ({} and { 7 }: the empty list is an empty Micheline sequence)
+
+
+def vtype():
+    return 'string' if VALTYPE[0] == 'string' else 'list nat'
+
+
+def vjson(v):
+    return {'string': VAL[v]} if VALTYPE[0] == 'string' else ([] if v == 1 else [{'int': '7'}])
+
+
+def vlit(v):
+    return '"%s"' % VAL[v] if VALTYPE[0] == 'string' else ('{}' if v == 1 else '{ 7 }')
+
+
+def unv(j):
+    if VALTYPE[0] == 'string':
+        return UNVAL[j['string']]
+    return 1 if j == [] else 2
 
 
 def ops_text(fam, op):
     kt, keys = FAMILIES[fam]
     push = 'PUSH (%s) %s' % (kt, lit(keys[op[1]]))
     v = op[2] if len(op) > 2 else None
-    newv = 'PUSH (option string) %s' % ('(Some "%s")' % VAL[v] if v else 'None')
+    newv = 'PUSH (option (%s)) %s' % (vtype(), '(Some %s)' % vlit(v) if v else 'None')
     return {'get': 'DUP ; %s ; GET ; DIG 2 ; SWAP ; CONS ; SWAP' % push,
             'mem': 'DUP ; %s ; MEM ; DIG 3 ; SWAP ; CONS ; DUG 2' % push,
             'upd': '%s ; %s ; UPDATE' % (newv, push),
@@ -149,10 +168,10 @@ def ops_text(fam, op):
 def script(hist, fam='string', mode='existing'):
     kt = FAMILIES[fam][0]
     body = ' ; '.join(ops_text(fam, op) for op in hist)
-    store = 'pair (big_map (%s) string) (pair (list (option string)) (list bool))' % kt
+    store = 'pair (big_map (%s) (%s)) (pair (list (option (%s))) (list bool))' % (kt, vtype(), vtype())
     if mode == 'copy':    # the big_map of the parameter replaces the (empty, fresh) one of the storage
-        return ('parameter (big_map (%s) string) ; storage (%s) ; code { UNPAIR ; SWAP ; CDR ; SWAP ; PAIR ; UNPAIR 3 ; %s PAIR 3 ; NIL operation ; PAIR }'
-                % (kt, store, body + ' ; ' if body else ''))
+        return ('parameter (big_map (%s) (%s)) ; storage (%s) ; code { UNPAIR ; SWAP ; CDR ; SWAP ; PAIR ; UNPAIR 3 ; %s PAIR 3 ; NIL operation ; PAIR }'
+                % (kt, vtype(), store, body + ' ; ' if body else ''))
     return 'parameter unit ; storage (%s) ; code { CDR ; UNPAIR 3 ; %s PAIR 3 ; NIL operation ; PAIR }' % (store, body + ' ; ' if body else '')
 
 
@@ -183,7 +202,7 @@ def run_impl(mode, chain, literal, hist, fam='string'):
     from pytezos.rpc.shell import ShellQuery
     from ..bigmapnode import BigMapNode
     keys = FAMILIES[fam][1]
-    node = BigMapNode({bm_id(mode, fam): {key_hash(k, fam): {'string': VAL[v]} for k, v in chain.items() if v}})
+    node = BigMapNode({bm_id(mode, fam): {key_hash(k, fam): vjson(v) for k, v in chain.items() if v}})
     parameter = {'prim': 'Unit'}
     if mode == 'existing':
         bm = {'int': str(bm_id(mode, fam))}
@@ -191,7 +210,7 @@ def run_impl(mode, chain, literal, hist, fam='string'):
         bm, parameter = [], {'int': str(BM_ID)}
     else:
         elts = sorted(((k, v) for k, v in literal.items() if v > 0), key=lambda kv: enc_sort_key(fam, kv[0]))
-        bm = [{'prim': 'Elt', 'args': [mich(keys[k]), {'string': VAL[v]}]} for k, v in elts]
+        bm = [{'prim': 'Elt', 'args': [mich(keys[k]), vjson(v)]} for k, v in elts]
     storage = {'prim': 'Pair', 'args': [bm, {'prim': 'Pair', 'args': [[], []]}]}
     ops, st, lazy_diff, stdout, err = Interpreter.run_code(parameter=parameter, storage=storage, script=script_micheline(hist, fam, mode), shell=ShellQuery(node=node))
     return st, lazy_diff, err, node
@@ -214,7 +233,7 @@ def flat_args(st):
 def compare(ctx, mode, chain, hist, obs, flat, literal, fam='string', expect=None):
     expect = expect or {'existing': ('update', False, True), 'fresh': ('alloc', False, False), 'copy': ('copy', True, False)}[mode]
     want_action, needs_source, keeps_id = expect
-    case = {'mode': mode, 'chain': chain, 'literal': literal, 'hist': to_json(hist), 'obs': to_json(obs), 'flat': flat, 'fam': fam, 'expect': list(expect)}
+    case = {'mode': mode, 'chain': chain, 'literal': literal, 'hist': to_json(hist), 'obs': to_json(obs), 'flat': flat, 'fam': fam, 'expect': list(expect), 'valtype': VALTYPE[0]}
     st, lazy_diff, err, node = run_impl(mode, chain, literal, hist, fam)
     tag = '' if fam == 'string' else ':key-' + fam
     desc = 'mode=%s keys=%s chain=%s literal=%s ops=%s' % (mode, fam, chain, literal, json.dumps(to_json(hist)))
@@ -222,7 +241,7 @@ def compare(ctx, mode, chain, hist, obs, flat, literal, fam='string', expect=Non
         ctx.mismatch('C15:run:raises' + tag, '%s: run_code failed: %s' % (desc, str(err)[:300]), case)
         return False
     bm, gets, mems = flat_args(st)
-    got_gets = [None if g['prim'] == 'None' else UNVAL[g['args'][0]['string']] for g in reversed(gets)]
+    got_gets = [None if g['prim'] == 'None' else unv(g['args'][0]) for g in reversed(gets)]
     got_mems = [m['prim'] == 'True' for m in reversed(mems)]
     want_gets = [o[1] if o[1] else None for o in obs if o[0] == 'get']
     want_mems = [o[1] for o in obs if o[0] == 'mem']
@@ -262,7 +281,27 @@ def compare(ctx, mode, chain, hist, obs, flat, literal, fam='string', expect=Non
             ctx.mismatch('C15:diff:duplicate-entry' + tag, '%s: key %s occurs twice in the diff %s' % (desc, lit(keys[k]), json.dumps(d['diff']['updates'])), case)
             ok = False
         seen.add(k)
-        result[k] = UNVAL[u['value']['string']] if 'value' in u else 0
+        result[k] = unv(u['value']) if 'value' in u else 0
+    # the library's own application of a diff (merge_lazy_diff on the stored big_map) reads the emitted diff the same way: bindings are bindings
+    # (also of an empty value), entries without a value are removals
+    try:
+        from pytezos.michelson.types.base import MichelsonType
+        kt = FAMILIES[fam][0]
+        from pytezos.michelson.parse import michelson_to_micheline
+        BT = MichelsonType.match(michelson_to_micheline('big_map (%s) (%s)' % (kt, vtype())))
+        merged = BT.from_micheline_value({'int': d['id']}).merge_lazy_diff(lazy_diff)
+        bound = {by_norm.get(norm(k_.to_micheline_value())): unv(v_.to_micheline_value()) for k_, v_ in merged.items}
+        gone = {by_norm.get(norm(k_.to_micheline_value())) for k_ in merged.removed_keys}
+        want_bound = {by_norm.get(norm(u['key'])): unv(u['value']) for u in d['diff'].get('updates', []) if 'value' in u}
+        want_gone = {by_norm.get(norm(u['key'])) for u in d['diff'].get('updates', []) if 'value' not in u}
+        if bound != want_bound or gone != want_gone:
+            ctx.mismatch('C15:merge_lazy_diff:reads-the-diff-differently' + tag + ('' if VALTYPE[0] == 'string' else ':value-' + VALTYPE[0]),
+                         '%s: merge_lazy_diff of the emitted diff %s gives bindings %s and removals %s; the diff says bindings %s, removals %s' % (
+                             desc, json.dumps(d['diff'].get('updates')), bound, sorted(map(str, gone)), want_bound, sorted(map(str, want_gone))), case)
+            ok = False
+    except Exception as e:   # noqa
+        ctx.mismatch('C15:merge_lazy_diff:raises' + tag, '%s: merge_lazy_diff of the emitted diff raised %r' % (desc, e), case)
+        ok = False
     if {k: v for k, v in result.items()} != flat:
         ctx.mismatch('C15:diff:apply' + tag, '%s: diff %s applied to chain gives %s, final dictionary is %s' % (desc, json.dumps(d['diff'].get('updates')), result, flat), case)
         ok = False
@@ -304,20 +343,27 @@ def run(ctx):
                 'once per key family (string, nat, int, bytes, pair, 4-leaf comb, nested comb with bool/option, or) with the depth given in replayed_by_key_family; GET/MEM results, the '
                 'emitted lazy diff applied to the chain contents, its action / id / copy source and each key_hash (recomputed with hashlib from an own legacy-form PACK) are compared; '
                 'non-trivial = history has an update')
-    ctx.assumptions = ['string values (the empty string included); keys of 8 comparable type families', 'the exact shape of the diff is not prescribed: only its effect, action, id, copy source and key hashes',
+    ctx.assumptions = ['string values (the empty string included) and, in one configuration, list values (the empty list included); keys of 8 comparable type families', 'the exact shape of the diff is not prescribed: only its effect, action, id, copy source and key hashes',
                        'key_hash recomputed independently (own binary Micheline of the key with nested pairs + blake2b + base58)']
     I = ALL_INITS
     if ctx.quick:
         run_config(ctx, ['a', 'b'], 3, [I[0], I[7], I[6]], {'string': 3})
         run_config(ctx, ['a', 'b'], 2, [I[0], I[7], I[5]], {f: 2 for f in FAMILIES if f != 'string'})
+        VALTYPE[0] = 'list'
+        run_config(ctx, ['a', 'b'], 2, [I[0], I[7], I[6]], {'string': 2, 'nat': 2})
+        VALTYPE[0] = 'string'
     else:
         run_config(ctx, ['a', 'b', 'c'], 3, [I[0], I[1], I[4], I[5], I[9], I[7]], {'string': 3, 'comb4': 3, 'nat': 2, 'int': 2, 'bytes': 2, 'pair': 2, 'comb3n': 2, 'or': 2})
         run_config(ctx, ['a', 'b'], 4, [I[0], I[1], I[8]], {'string': 4})
+        VALTYPE[0] = 'list'
+        run_config(ctx, ['a', 'b'], 3, [I[0], I[7], I[6], I[5]], {'string': 3, 'nat': 2, 'comb4': 2})
+        VALTYPE[0] = 'string'
     ctx.exhaustive = True
 
 
 def replay(ctx, rep):
     c = rep['case']
+    VALTYPE[0] = c.get('valtype', 'string')
     tup = lambda x: tuple(tup(y) for y in x) if isinstance(x, list) else x
     ok = compare(ctx, c['mode'], c['chain'], tup(c['hist']), tup(c['obs']), c['flat'], c.get('literal') or {}, c.get('fam', 'string'), tuple(c['expect']) if c.get('expect') else None)
     for m in ctx.mismatches:
